@@ -17,6 +17,23 @@ DISPATCH = {
 }
 
 
+def run_selftest(pid, seed):
+    """Corrupt the recorded artefacts of the run that just finished; TLC must reject (harness/selftest.py)."""
+    import json
+    import selftest
+    from common import VERIF
+    summ = selftest.run(pid, seed)
+    tried, rej = sum(summ["tried"].values()), sum(summ["rejected"].values())
+    print(f"[{pid}] selftest: {rej}/{tried} corrupted artefacts rejected; per kind tried={summ['tried']} rejected={summ['rejected']}")
+    evp = os.path.join(VERIF, "evidence", f"{pid}.json")
+    ev = json.load(open(evp))
+    ev["coverage"]["selftest"] = summ
+    json.dump(ev, open(evp, "w"), indent=1)
+    if tried == 0 or rej == 0:
+        raise MachineryError(f"selftest: no corrupted artefact was rejected ({tried} tried)")
+    return 0
+
+
 def main():
     ap = argparse.ArgumentParser()
     ap.add_argument("pid")
@@ -39,7 +56,10 @@ def main():
         seed, a.tier = int(rj.get("seed", seed)), rj.get("tier", a.tier)
     try:
         mod = __import__(modname)
-        return getattr(mod, fn)(a.pid, a.tier, seed, selftest=a.selftest, replay=a.replay)
+        rc = getattr(mod, fn)(a.pid, a.tier, seed, selftest=a.selftest, replay=a.replay)
+        if rc == 0 and not a.replay and (a.selftest or a.tier == "thorough"):
+            rc = run_selftest(a.pid, seed)
+        return rc
     except MachineryError as e:
         print(f"MACHINERY-ERROR {a.pid}: {e}")
         return 2
